@@ -190,6 +190,8 @@ func Load(dir, goarch, modPath string, minPkgs int) (*Ctx, error) {
 				}
 			}
 			ssa.CanonCompares(c.ModFuncs)
+			// an offset that became constant through a split (offset + 8 + addressLength) is read at the cursor now
+			c.Unrolled = append(c.Unrolled, ssa.NormalizeOffsetReads(c.ModFuncs)...)
 			// a call through a table entry or a local function value may have become a direct call by now: once more
 		}
 	}
